@@ -13,16 +13,16 @@ import (
 
 // Violation is one observed breach of the checked property.
 type Violation struct {
-	Prop  string    `json:"property"`
-	Sig   string    `json:"signature"`
-	Msg   string    `json:"message"`
-	Kind  string    `json:"kind"` // inchild | digest | crash | race | deadlock
-	Slot  int       `json:"slot"`
-	Op    uint64    `json:"op"`
-	Spec  *RunSpec  `json:"spec"`
-	Build BuildCfg  `json:"build"`
-	Env   []string  `json:"env,omitempty"`
-	Extra string    `json:"extra,omitempty"`
+	Prop  string   `json:"property"`
+	Sig   string   `json:"signature"`
+	Msg   string   `json:"message"`
+	Kind  string   `json:"kind"` // inchild | digest | crash | race | deadlock
+	Slot  int      `json:"slot"`
+	Op    uint64   `json:"op"`
+	Spec  *RunSpec `json:"spec"`
+	Build BuildCfg `json:"build"`
+	Env   []string `json:"env,omitempty"`
+	Extra string   `json:"extra,omitempty"`
 	rr    *RunResult
 }
 
@@ -304,7 +304,7 @@ func raceOnHarnessMemory(r RaceReport) bool {
 		if strings.HasPrefix(t, "/") || !strings.Contains(t, "(") {
 			continue
 		}
-		fn := t[:strings.Index(t, "(")]
+		fn := strings.TrimSuffix(t, "()")
 		if strings.HasPrefix(fn, "runtime.") || strings.HasPrefix(fn, "reflect.") {
 			continue
 		}
